@@ -109,10 +109,23 @@ pub fn check(sc: &Scenario, ex: &Exec, a: &Analysis) -> Vec<Violation> {
             // idle since the first response was written
             let idle_from = finals.first().and_then(|r| stamp_of_offset(ex, r.end.saturating_sub(1))).unwrap_or(0);
             // second request: when did it arrive
+            let end0 = a.stream.spans.first().map(|s| s.2).unwrap_or(0);
             let second_at = ex.log.iter().find_map(|e| match e {
-                Event::Env { what, now_ms } if what.starts_with("arrive ") => Some(*now_ms),
+                Event::Env { what, now_ms } if what.starts_with("arrive ") => {
+                    let from: usize = what["arrive ".len()..].split("..").next().and_then(|x| x.parse().ok()).unwrap_or(0);
+                    (from >= end0).then_some(*now_ms)
+                }
                 _ => None,
             });
+            // idleness starts when the first exchange is over: response written and request body received
+            let body_done_at = ex.log.iter().filter_map(|e| match e {
+                Event::Env { what, now_ms } if what.starts_with("arrive ") => {
+                    let from: usize = what["arrive ".len()..].split("..").next().and_then(|x| x.parse().ok()).unwrap_or(0);
+                    (from < end0).then_some(*now_ms)
+                }
+                _ => None,
+            }).max().unwrap_or(0);
+            let idle_from = idle_from.max(body_done_at);
             let closed_at = ex.io.shutdown_first_stamp.or(ex.done_at_ms);
             match second_at {
                 Some(t) if t + TAU <= idle_from + ka => {
@@ -187,7 +200,9 @@ pub fn check(sc: &Scenario, ex: &Exec, a: &Analysis) -> Vec<Violation> {
                     }
                 }
                 _ => {
-                    if ex.io.fault.is_none() && !ex.fin_delivered {
+                    // (a peer that has stopped reading cannot be answered: the disconnect timeout
+                    // rightly ends such a connection)
+                    if ex.io.fault.is_none() && !ex.fin_delivered && sc.env.stall_writes_after.is_none() {
                         v.push(viol(P, "d", "in-flight-request-not-answered", format!("request #{j} was in flight when the signal fired at {sig_ms} ms but has no complete response ({} final responses, connection result {:?})", finals.len(), ex.done)));
                     }
                 }
@@ -254,6 +269,24 @@ pub fn scenarios(_tier: &str) -> Vec<Scenario> {
                 s.env.horizon_ms = 4000;
                 out.push(s);
             }
+            // the head trickles in: several pieces before the deadline, the rest never / too late
+            for (tn, times) in [("0-500-900-never", vec![500u64, 900]), ("0-250-500-750-late1500", vec![250, 500, 750, 1500]), ("0-250-500-intime", vec![250, 500])] {
+                let mut s = mk(format!("head:rt{rt}/dt{dt}/trickle:{tn}"), vec![RequestSpec::new("GET", 0)], vec![ok()]);
+                s.config.request_timeout_ms = rt;
+                s.config.disconnect_timeout_ms = dt;
+                let len = s.stream().bytes.len();
+                let mut segs = vec![Segment { when: When::Start, from: 0, to: 4 }];
+                let mut from = 4;
+                for (i, t) in times.iter().enumerate() {
+                    let last = i + 1 == times.len();
+                    let to = if last && !tn.ends_with("never") { len } else { (from + 4).min(len - 2) };
+                    segs.push(Segment { when: When::At(*t), from, to });
+                    from = to;
+                }
+                s.segments = segs;
+                s.env.horizon_ms = 4000;
+                out.push(s);
+            }
             // nothing at all is ever sent
             let mut s = mk(format!("head:rt{rt}/dt{dt}/silent"), vec![RequestSpec::new("GET", 0)], vec![ok()]);
             s.config.request_timeout_ms = rt;
@@ -280,6 +313,19 @@ pub fn scenarios(_tier: &str) -> Vec<Scenario> {
                 s.env.horizon_ms = 5000;
                 out.push(s);
             }
+        }
+    }
+    // (b') keep-alive must also expire after a dropped chunked upload was drained
+    for dt in [0u64, 1000] {
+        for plan in [PayloadPlan::DropAtStart, PayloadPlan::ReadAllThenRespond] {
+            let mut s = mk(format!("ka:after-upload/{plan:?}/dt{dt}/second@None"), vec![RequestSpec::new("POST", 0).chunked(vec![ChunkSpec::plain(b"0123456789"), ChunkSpec::plain(b"abcdefghij")])], vec![ok().plan(plan.clone())]);
+            s.config.keep_alive = Ka::Timeout(2000);
+            s.config.disconnect_timeout_ms = dt;
+            let st = s.stream();
+            let he = st.spans[0].1;
+            s.segments = vec![Segment { when: When::Start, from: 0, to: he + 5 }, Segment { when: When::At(500), from: he + 5, to: st.bytes.len() }];
+            s.env.horizon_ms = 6000;
+            out.push(s);
         }
     }
     // (c) shutdown against a socket whose shutdown never completes, for every way of entering shutdown
